@@ -21,8 +21,8 @@ vlib.standard_check({
     "harness": "c18",
     "translators": [translate_bitmanip.run],
     "gen_files": ["lean/GateryModel/Gen/BitManip.lean"],
-    "streams": {"quick": [[2000, 50], [5000, 0]], "thorough": [[20000, 50], [2000, 400], [20000, 12], [300000, 0]]},
-    "search": [[20000, 50], [5000, 200], [100000, 0]],
+    "streams": {"quick": [[2000, 50], [5000, 0], [400, "sig"]], "thorough": [[20000, 50], [2000, 400], [20000, 12], [300000, 0], [6000, "sig"]]},
+    "search": [[20000, 50], [5000, 200], [100000, 0], [3000, "sig"]],
     "signature": signature,
     "eval_key": "ops",
     "nontrivial": lambda t: t.get("ops", 0) - t.get("hist", {}).get("resize", 0) - t.get("hist", {}).get("get", 0) - t.get("hist", {}).get("formatBinary", 0) - t.get("hist", {}).get("formatHex", 0),
